@@ -27,7 +27,8 @@ EXPLANATION = (
     ' (R11) who may produce a recorded checksum / size: the function that wrote the file, a copy, or the manifest decoder - never a later re-hash of stored bytes.'
     ' (R12) the metadata decoder reads every key the encoder writes with a subscript; (R13) no sync_interval on the Avro writers. R3: the de-duplication key is the path itself; R4: verify_checksums is handed on unchanged (None stays None) at every hop.'
     ' (R15) recovery orders versions as integers (C10.R11); R4 decides the environment default by scenario (unset / true / 1 / yes / on -> ON).'
-    ' R3: a path listed twice keeps its FIRST entry; (R16) the paths of manifest / manifest-list entries are read with a subscript (a missing key fails the read, it is not None).')
+    ' R3: a path listed twice keeps its FIRST entry; (R16) the paths of manifest / manifest-list entries are read with a subscript (a missing key fails the read, it is not None).'
+    ' R7 / R2 judge decoding STAGES extracted into helpers in place (`x = stage(path); if x is not None: return x`).')
 NOT_DECIDED = ("damage classes that still parse (Avro cut at a block boundary, a sibling file that is valid JSON); "
                "pyarrow's behaviour on corrupt pages when verification is off")
 
